@@ -55,3 +55,19 @@ static struct cds_lfht *recmm_alloc_cds_lfht(unsigned long min_nr_alloc_buckets,
 }
 static const struct cds_lfht_mm_type recmm = { recmm_alloc_cds_lfht, recmm_alloc_bucket_table, recmm_free_bucket_table, recmm_bucket_at };
 const struct cds_lfht_mm_type *glue_recmm(void) { return &recmm; }
+
+/* The table sizes its per-cpu counters and its resize helper threads from the number of possible cpus. Four (not this machine's sixteen) keeps
+ * multi-threaded partitioned resizes with a full complement of helpers (as many as cpus) inside the table sizes a fuzz case reaches. */
+#include <fcntl.h>
+#include <stdarg.h>
+#include <sys/mman.h>
+extern int __real_open(const char *path, int flags, ...);
+int __wrap_open(const char *path, int flags, ...)
+{
+	va_list ap; va_start(ap, flags); int mode = va_arg(ap, int); va_end(ap);
+	if (!strcmp(path, "/sys/devices/system/cpu/possible")) {
+		int fd = memfd_create("possible", 0);
+		if (fd >= 0) { (void) !write(fd, "0-3\n", 4); lseek(fd, 0, SEEK_SET); return fd; }
+	}
+	return __real_open(path, flags, mode);
+}
